@@ -21,7 +21,8 @@ RULE = ("diagrams as in C01 plus 6_2, 7_4, 8_19, L6a4 (thorough: also 6_3, 7_7, 
         "components with boundary (cylinder, cup, cap, arc identity, saddle, merge) x genus <= 3 x dots <= 4 x 6 points (+ random "
         "BigInt): the three coefficients of CobComp::part_eval and Cob::part_eval; kind cp = random cobordisms of 0..4 closed "
         "components over i64 / BigInt / Z[H,T]: Cob::eval, Cob::part_eval, Cob::deg. "
-        "non-trivial = a dump with at least one non-zero differential entry, resp. a cobordism case whose values are not all "
+        "kind rj: parameter combinations that KhComplex::new must reject (reduced with t != 0 over Z, Q, Z[H,T]; reduced "
+        "on the empty link) - no complex may be returned. non-trivial = a dump with at least one non-zero differential entry, resp. a cobordism case whose values are not all "
         "zero; distinct = distinct case lines")
 
 
